@@ -56,6 +56,9 @@ pub struct OldiesParams {
     pub close_gap_ms: u32,
     /// processing-time multiplier of the oldies pipeline (a slow replay of the past while new events keep coming)
     pub oldies_slowness: u32,
+    /// the newies executor is removed individually (`flush_and_cancel_executor("newies")`) before the Multi is closed
+    #[serde(default)]
+    pub cancel_newies: bool,
 }
 
 #[derive(Clone, Debug, PartialEq, Eq)]
@@ -79,6 +82,7 @@ enum J {
     SpawnReturned(bool),
     CloseCalled,
     CloseReturned(bool, u32, bool, u32),
+    CancelNewiesReturned(bool),
 }
 
 type Journal = Arc<Mutex<Vec<J>>>;
@@ -229,6 +233,12 @@ fn oldies_run<const I: usize>(p: &OldiesParams, log_name: &str) -> Vec<J> {
         j.lock().unwrap().push(J::SpawnReturned(r.is_ok()));
         let _ = producer.await;
         gap(p2.close_gap_ms).await;
+        if p2.cancel_newies {
+            let answer = multi.flush_and_cancel_executor("newies", Duration::ZERO).await;
+            j.lock().unwrap().push(J::CancelNewiesReturned(answer));
+            // an executor that was removed has ceased: its close callback comes now, not when the whole Multi is closed
+            tokio::time::sleep(Duration::from_millis(50)).await;
+        }
         j.lock().unwrap().push(J::CloseCalled);
         let answer = multi.close(Duration::ZERO).await;
         j.lock().unwrap().push(J::CloseReturned(answer, multi.channel.running_streams_count(), multi.channel.is_channel_open(), multi.channel.pending_items_count()));
@@ -316,6 +326,15 @@ fn judge(p: &OldiesParams, journal: &[J]) {
             }
         }
     }
+    // ---------------- C12: an individually removed executor
+    let cancelled_newies = journal.iter().any(|e| matches!(e, J::CancelNewiesReturned(true)));
+    if cancelled_newies {
+        let close_called = pos(&|e| matches!(e, J::CloseCalled)).unwrap_or(journal.len());
+        let new_closed = pos(&|e| matches!(e, J::CloseInvoked(NEW, _, _)));
+        if new_closed.map(|c| c > close_called).unwrap_or(true) {
+            ctx::report("C12", "removed_executor_not_closed", key("newies/removed_executor_not_closed"), format!("flush_and_cancel_executor(\"newies\") answered true, yet 50 virtual ms later the newies executor's close callback had not been invoked (it came {})", if new_closed.is_some() { "only when the whole Multi was closed" } else { "never" }));
+        }
+    }
     // ---------------- C12: close callbacks
     for (pipe, name) in [(OLD, "oldies"), (NEW, "newies")] {
         let invoked: Vec<usize> = journal.iter().enumerate().filter(|(_, e)| matches!(e, J::CloseInvoked(q, _, _) if *q == pipe)).map(|(i, _)| i).collect();
@@ -330,20 +349,23 @@ fn judge(p: &OldiesParams, journal: &[J]) {
                 ctx::report("C12", "close_before_last_item", key(&format!("{}/close_before_last_item", name)), format!("the {} executor's close callback was invoked (journal position {}) before {:?} (position {})", name, invoked[0], journal[li], li));
             }
         }
+        // `StreamEnded` is always fine; `ProgrammaticallyEnded` only for an executor that was scheduled to finish
+        let expected_status = "StreamEnded";
+        let programmatic_ok = pipe == NEW && cancelled_newies;
         if let J::CloseInvoked(_, status, finish_ok) = &journal[invoked[0]] {
-            if status != "StreamEnded" || !finish_ok {
-                ctx::report("C12", "status_in_close_callback", key(&format!("{}/status_in_close_callback", name)), format!("the {} executor's close callback found state {} (nobody scheduled it to finish), finish time not before start time: {}", name, status, finish_ok));
+            if !(status == expected_status || (programmatic_ok && status == "ProgrammaticallyEnded")) || !finish_ok {
+                ctx::report("C12", "status_in_close_callback", key(&format!("{}/status_in_close_callback", name)), format!("the {} executor's close callback found state {} (expected {}), finish time not before start time: {}", name, status, expected_status, finish_ok));
             }
         }
         for e in journal.iter() {
             if let J::CloseLate(q, status) = e {
-                if *q == pipe && status != "StreamEnded" {
+                if *q == pipe && !(status == expected_status || (programmatic_ok && status == "ProgrammaticallyEnded")) {
                     ctx::report("C12", "status_left_the_ended_state", key(&format!("{}/status_left_the_ended_state", name)), format!("3 ms (virtual) into its close callback the {} executor is in state {}", name, status));
                 }
             }
         }
         if let J::CloseRan(_, status) = &journal[ran[0]] {
-            if status != "StreamEnded" {
+            if !(status == expected_status || (programmatic_ok && status == "ProgrammaticallyEnded")) {
                 ctx::report("C12", "status_in_close_callback", key(&format!("{}/status_in_close_callback", name)), format!("the {} executor's close callback future found state {}", name, status));
             }
         }
@@ -429,6 +451,7 @@ impl Scenario for OldiesExec {
             spawn_at_ms: if rng.chance(1, 4) { u32::MAX } else { rng.below(total_gap as u64 + 3) as u32 },
             close_gap_ms: *rng.pick(&[0, 0, u32::MAX, 1, 5, 40]),
             oldies_slowness: 1 + rng.below(3) as u32,
+            cancel_newies: rng.chance(1, 4),
         }
     }
     fn sched<'a>(&self, p: &'a OldiesParams) -> &'a SchedSpec {
@@ -496,6 +519,11 @@ impl Scenario for OldiesExec {
         if p.instruments != 0 {
             let mut q = p.clone();
             q.instruments = 0;
+            out.push(q);
+        }
+        if p.cancel_newies {
+            let mut q = p.clone();
+            q.cancel_newies = false;
             out.push(q);
         }
         if p.timeout_ms > 0 && p.events.iter().all(|e| e.delay_ms < p.timeout_ms) {
